@@ -3,13 +3,33 @@
 import json, subprocess
 ids=[json.loads(l)['id'] for l in open('/verif/properties.jsonl')]
 TB="Trusted: the govc VC generator and go/ssa lowering, the three SMT solvers, the library/interface contracts listed in the evidence file's trusted_base, mathematical (unbounded) 64-bit integers, sequential execution of each function body."
+TECH="contract-based deductive verification (WP over go/ssa, SMT: z3/z3-new/cvc5)"
+def C(text,note,ref): return dict(text=text,note=note+" "+TB,tech=TECH,ref=ref)
 claimed={
- "C37":dict(text="Unbounded WP proof of exact functional contracts for every sop.Handle step (NewHandle, GetActiveID/GetInActiveID, IsAandBinUse, AllocateID, FlipActiveID, ClearInactiveID, HasID, IsEmpty, IsEqual, IsExpiredInactive) for all handle values; these are the atomic steps the commit protocol composes.",
-   note="Decides the per-step handle discipline (claim allocates only the inactive slot, flip swaps active/inactive, clear only touches the inactive slot). The composition over interleavings of 2-3 committers is NOT decided yet. "+TB, tech="contract-based deductive verification (WP over go/ssa, SMT)", ref="§5 C37"),
- "C34":dict(text="Unbounded WP proof that Authorize equals the access rule written from the statement (system visibility, admin, owner, public read/list, role and user grants) for all callers, grant maps and actions (four loops with invariants), that CheckPolicy/EnforcePolicy/CanPerformAction deny write/delete on core resources for everyone and otherwise agree with the rule.",
-   note="GetAuthFromContext is the definition of the caller identity (trusted). ResolveRBACMap's agreement with enforcement is under contract separately (see evidence). "+TB, tech="contract-based deductive verification (WP over go/ssa, SMT)", ref="§5 C34"),
- "C16":dict(text="Unbounded WP proof over ghost per-participant call counters that SinglePhaseTransaction.Commit issues a participant's Phase2Commit only after SOP's and every participant's Phase1Commit and SOP's Phase2Commit succeeded, that any error return means no participant Phase2 ran and SOP plus every participant were asked to roll back, that Rollback asks everyone even when earlier ones fail, and the same for a failing Begin; any number of participants, every failure position (each interface call returns an arbitrary error).",
-   note="Participants are abstract TwoPhaseCommitTransaction values whose calls only bump ghost counters (interface contracts, assumed). SOP's own transaction is assumed not to be registered as its own participant. "+TB, tech="contract-based deductive verification (WP over go/ssa, SMT)", ref="§5 C16"),
+ "C37":C("Unbounded WP proof of exact functional contracts for every sop.Handle step (NewHandle, GetActiveID/GetInActiveID, IsAandBinUse, AllocateID, FlipActiveID, ClearInactiveID, HasID, IsEmpty, IsEqual, IsExpiredInactive) for all handle values, plus the undo-dispatch contract of Transaction.rollback: rollbackUpdatedNodes (which clears inactive ids and deletes their blobs) runs exactly when this transaction's own claim may have been written (logged state > commitUpdatedNodes), never for a committer that did not claim.",
+   "Decides the per-step handle discipline and the 'only the claimant unclaims' rule. The composition over interleavings of 2-3 committers is NOT decided.","§5 C37"),
+ "C34":C("Unbounded WP proof that Authorize equals the access rule written from the statement (system visibility, admin, owner, public read/list, role and user grants) for all callers, grant maps and actions (four loops with invariants), and that CheckPolicy/EnforcePolicy/CanPerformAction deny write/delete on core resources for everyone and otherwise agree with the rule.",
+   "GetAuthFromContext is the definition of the caller identity (trusted). ResolveRBACMap (UI map) is not yet under contract.","§5 C34"),
+ "C16":C("Unbounded WP proof over ghost per-participant call counters that SinglePhaseTransaction.Commit issues a participant's Phase2Commit only after SOP's and every participant's Phase1Commit and SOP's Phase2Commit succeeded, that any error return means no participant Phase2 ran and SOP plus every participant were asked to roll back, that Rollback asks everyone even when earlier ones fail, and the same for a failing Begin; any number of participants, every failure position (each interface call returns an arbitrary error).",
+   "Participants are abstract TwoPhaseCommitTransaction values whose calls only bump ghost counters (interface contracts, assumed). SOP's own transaction is assumed not to be registered as its own participant.","§5 C16"),
+ "C14":C("Unbounded WP proof of the lifecycle state machine of common.Transaction over (phaseDone, committed, mode): Begin succeeds only from the initial state, Phase1Commit/Phase2Commit/Rollback reject a transaction that has not begun or is finished and leave its state unchanged, reader and no-check modes never reach the writer's phase1Commit/phase2Commit/rollback, a committed transaction is never rolled back, a failed phase ends the transaction with rollback called; plus the wrapper SinglePhaseTransaction.Commit/Rollback (a failed Commit rolls SOP's transaction back).",
+   "The guarded B-tree wrappers (btree/withtransaction.go) are not yet under contract, so 'operations succeed only between Begin and the end' is decided for the transaction object only. phase1Commit/phase2Commit/rollback/onIdle are abstracted by their computed modification sets (they do not write phaseDone/committed/mode: checked syntactically, transitively).","§5 C14"),
+ "C06":C("Unbounded WP proof of the count bookkeeping wiring: getRollbackStoresInfo returns exactly one entry per opened store at the store's own index with CountDelta == nodeRepository.count - Count (the reverse delta); getCommitStoresInfo lists exactly the stores with a non-zero delta; Transaction.rollback writes the reverse deltas back (StoreRepository.Update) whenever the store infos were committed and some store existed before, and never otherwise.",
+   "Btree.Add/Remove count arithmetic and fs.StoreRepository.Update's merge are not yet under contract; tree-level 'scan length == Count' is not decided here.","§5 C06"),
+ "C23":C("Unbounded WP proof (arbitrary block contents, CRC-32 as an uninterpreted function of the bytes) that unmarshalData accepts exactly valid blocks (all zero, or trailer == CRC of the rest), marshalData always produces one, checkCow only hands back complete valid backups, restoreFromCow yields a valid block from a valid backup, writeBlockRegionPayload leaves a valid block, and readAndRestoreBlock returns nil only with a valid block when the block passed its check or a backup was restored. The statement-level clause 'err == nil ==> valid block' fails in one class (checksum mismatch, no usable backup) and is reported as a known finding.",
+   "Disk and backup file I/O are trusted interface/OS calls returning arbitrary data and errors. The pinned tests require blocks without a checksum to be served, so the finding cannot be repaired (see known_findings.json).","§5 C23"),
+ "C12":C("Unbounded WP proof of the created-store clause of Transaction.rollback: when the logged state is at least createStore (and the transaction is not past its commit point) every store created by the transaction is removed through StoreRepository.Remove (loop invariant over the opened stores), and none is removed otherwise. The early-return branch for actively persisted items does not remove created stores: known finding.",
+   "The create path (NewBtree logging before StoreRepository.Add, the loser of a concurrent creation) and fs.StoreRepository.Add/Remove are not yet under contract.","§5 C12"),
+ "C09":C("Reachability obligation on Transaction.Begin: a successful Begin runs processScheduledPriorityRollback and processExpiredLogs. It holds only when a store is already open; at Begin none is, so the maintenance sweeps never run from the public API: known finding (confirmed by a two-process replay at design time).",
+   "Interval arithmetic of the sweeps and clustered (Redis) mode are not under contract.","§5 C09"),
+ "C10":C("Unbounded WP proof of the undo dispatch of Transaction.rollback as 'exactly when' clauses: rollbackNewRootNodes / rollbackAddedNodes / rollbackRemovedNodes / rollbackUpdatedNodes run if and only if the logged state is strictly past their do-step, so a rollback never deletes blobs or registry entries staged by a step that did not run (e.g. the loser of a new-root race must not delete the winner's root blob).",
+   "getToBeObsoleteEntries (which ids become obsolete after a commit) and the value-blob id discipline are not yet under contract.","§5 C10"),
+ "C11":C("Unbounded WP proof of cleanup coverage in Transaction.rollback: the transaction log is removed on every undo path, the priority log is removed once beforeFinalize was reached, and the value blobs written by commitTrackedItemsValues are deleted whenever that step was reached (state >= commitTrackedItemsValues, because the step can fail half-way after writing some blobs).",
+   "cleanup()/deleteObsoleteEntries after a successful commit and the step self-cleaning clauses are not yet under contract; the orphaned-value-blob defect noted in DESIGN.md §7 is therefore not yet reported by a check.","§5 C11"),
+ "C01":C("Unbounded WP proof of the undo coverage part of all-or-nothing: Transaction.rollback undoes every step whose effect may exist (including the store-info/count update for every pre-existing store, by position), Phase1Commit/Phase2Commit call rollback on every error path and end the transaction, SinglePhaseTransaction.Commit rolls everything back on any failure. Every storage/cache/log call returns an arbitrary error, so all fault positions are covered.",
+   "The commit point (single registry update in phase2Commit), staged-id discipline of commitUpdatedNodes and back-end visibility are not yet under contract.","§5 C01"),
+ "C07":C("Unbounded WP proof of error-path coverage: on every error of Phase1Commit/Phase2Commit the transaction ends and rollback runs; rollback always unlocks the node keys, unlocks the tracked items once they were locked, removes the logs (priority log too once beforeFinalize was reached) and resets the logged state, for every logged state and every combination of failing storage calls.",
+   "Step self-cleaning inside the commitX steps (the confirmed blob-write failure after the registry claim, DESIGN.md §7) is not yet under contract.","§5 C07"),
 }
 na_reason={
  "C04":"progress under contention (both writers eventually commit) is a liveness property over schedules; pre/postconditions give partial correctness per call only",
